@@ -513,6 +513,29 @@ theorem restart_keeps_muting_and_dedup {M β} (c : Codec M) (maxSize : Nat) (ms 
      | _ => none) = some (observe ms) := by
   rw [decode_encode c maxSize ms hg]
 
+/-! ### the content of a snapshot is ONE state of the store -/
+
+/-- `Silences.Snapshot` / `Log.Snapshot` serialise under the store's lock, from the first entry to the
+    last: the bytes are the encoding of the state at one index `i` of the history of states the store
+    went through while the snapshot ran.  What a restart loads is then that very state — a state the
+    store was in, never a mixture of two (an edit that expires a silence and creates its replacement
+    is in the file with both halves or with neither). -/
+theorem snapshot_loads_one_state {M} (c : Codec M) (maxSize : Nat) (hist : List (List M)) (i : Nat)
+    (h : i < hist.length) (hg : ∀ m ∈ hist[i], Good c maxSize m) :
+    ∃ s ∈ hist, decodeState c maxSize (encodeState c hist[i]) = .ok s :=
+  ⟨hist[i], List.getElem_mem h, decode_encode c maxSize _ hg⟩
+
+/-- negative model: a "streaming" snapshot that reads the list of ids at one instant and every entry
+    at a later one (the lock is released in between) -/
+def streamSnapshot {K M} [DecidableEq K] (ids : List K) (later : List (K × M)) : List (K × M) :=
+  ids.filterMap fun k => later.find? (·.1 = k)
+
+/-- … writes a state the store never was in: silence 1 is active (`true`), then an edit replaces it
+    (1 expired, 2 active); the streamed snapshot holds 1 expired and no 2. -/
+theorem streaming_snapshot_mixed :
+    streamSnapshot ([(1, true)].map (·.1)) [(1, false), (2, true)] ∉ [[(1, true)], [(1, false), (2, true)]] := by
+  decide
+
 /-- **never_refuses_own_file (partial), over histories with crashed attempts
     and with the bound spelled out**: every record of every state that was ever
     serialised is at most 4 MiB = 4194304 bytes long (`Good … defaultMaxSize`,
